@@ -398,6 +398,12 @@ func (d *director) run(ctx context.Context) {
 					if linger {
 						r.Probe("pod_lingers_after_node_delete")
 						d.lingering = append(d.lingering, p)
+						// the machine is gone, so the sandbox is dead in truth; what still speaks for its addresses is the
+						// pod OBJECT (oracle.lingerJustified: same node, reports the address or nothing yet)
+						p.lingering = true
+						if p.cur != nil {
+							w.killSandbox(p.cur, "node deleted (pod object lingers)")
+						}
 					} else {
 						w.deletePod(p, "node deleted", false)
 					}
